@@ -1,7 +1,8 @@
 (* Well-formedness through user_event, net_opened, net_write_completion, reset. *)
 From GM Require Import Base.Prelude Base.Outcome Codec.Packets Codec.Settings Engine.Model
   EngineProofs.AssocLemmas EngineProofs.PacketIds EngineProofs.WFLemmas EngineProofs.WFDefs EngineProofs.WFCore
-  EngineProofs.WFComplete EngineProofs.WFClose EngineProofs.WFClose2 EngineProofs.WFService EngineProofs.WFService4.
+  EngineProofs.WFComplete EngineProofs.WFClose EngineProofs.WFClose2 EngineProofs.WFService EngineProofs.WFService4
+  EngineProofs.WFTrack.
 From Coq Require Import Sorting.Sorted.
 From RecordUpdate Require Import RecordSet.
 Import RecordSetNotations.
@@ -183,6 +184,35 @@ Section Events.
       + intros Hin. apply (Hq (s_next_id s)); [tauto|reflexivity].
   Qed.
 
+  Lemma fresh_id (s : state) : WFS s -> lookup (s_next_id s) (s_ops s) = None.
+  Proof. intros HW. apply lookup_none_not_in. intros Hin. pose proof (w_lt _ _ HW _ Hin) as Hlt. cbn in Hlt. lia. Qed.
+
+  Lemma user_event_tr (s : state) p t :
+    WF cfg s -> sub_ok p -> TR s -> TR (r_s (user_event cfg s p t)).
+  Proof.
+    intros [HW HP] Hsub HT. unfold user_event.
+    set (o := new_op p (negb (is_disconnect p)) (if is_disconnect p then None else t)).
+    destruct (create_op_spec [] s o HW eq_refl eq_refl) as (C1 & C2 & C3 & C4 & C5 & C6 & C7 & C8 & C9 & C10).
+    cbn [create_operation fst snd] in *.
+    set (s1 := s <| s_next_id := s_next_id s + 1 |> <| s_ops := s_ops s ++ [(s_next_id s, o)] |>) in *.
+    assert (HP1 : WFP cfg s1).
+    { eapply (WFP_newop cfg s s1 o); try eassumption; try reflexivity; auto. }
+    assert (Huo : unb_ok o) by (apply unb_ok_new; exact Hsub).
+    destruct (passes_now cfg s1 p) eqn:Epass; cbn [negb].
+    - destruct (is_disconnect p); cbn.
+      + apply (TR_newop s _ o HT (fresh_id s HW)); [reflexivity| |]; unfold inQ; cbn; [tauto|]. intros _. split; [tauto|exact Huo].
+      + apply (TR_newop s _ o HT (fresh_id s HW)); [reflexivity| |]; unfold inQ; cbn.
+        * intros i [Q|Q]; [left; apply in_or_app; tauto|tauto].
+        * intros _. split; [left; apply in_or_app; right; left; reflexivity|exact Huo].
+    - pose proof (fail_op_spec cfg [] s1 (s_next_id s) EOfflineQueuePolicyFailed C2 (W9_of_WFP s1 HP1)) as F.
+      cbn [r_s]. apply (TR_gen s _ HT). intros i o1 Hi Hp. right.
+      pose proof (fc_sub _ _ _ (fs_frame _ _ _ _ _ F) _ _ Hi) as Hi1.
+      destruct (C8 i o1 Hi1) as [Hold|[-> _]].
+      + exists o1. splits; auto. destruct (rest_fields _ _ (fc_rest _ _ _ (fs_frame _ _ _ _ _ F))) as (R1 & R2 & R3 & R4 & R5 & _).
+        unfold inQ. rewrite R1, R2, R3, R4, R5. cbn. tauto.
+      + rewrite (fs_gone _ _ _ _ _ F (s_next_id s)) in Hi; [discriminate|left; reflexivity].
+  Qed.
+
   (* ---- net_opened ---- *)
   Lemma is_connect_create (s : state) : is_connect (create_connect cfg s) = true.
   Proof.
@@ -220,11 +250,24 @@ Section Events.
       + cbn. constructor; [intros []|constructor].
   Qed.
 
+  Lemma net_opened_tr (dec_init : dec) (s : state) deadline :
+    WF cfg s -> TR s -> TR (r_s (net_opened dec_init cfg s deadline)).
+  Proof.
+    intros [HW HP] HT. unfold net_opened. destruct (pstate_eqb (s_st s) Disconnected) eqn:Est; cbn [negb].
+    2:{ cbn. apply (TR_queues s); [reflexivity|unfold inQ; cbn; tauto|exact HT]. }
+    apply pstate_eqb_eq in Est. unfold WFP in HP. rewrite Est in HP. destruct HP as (A1 & A2 & A3 & A4 & A5 & A6).
+    cbn. eapply (TR_newop s _ _ HT (fresh_id s HW)); [reflexivity| |]; unfold inQ; cbn.
+    - rewrite A6. intros i [Q|[Q|[Q|[Q|Q]]]]; try tauto; try discriminate.
+    - intros _. split; [tauto|]. unfold unb_ok. cbn. split; [reflexivity|].
+      intros pb Hx. assert (Hc : is_connect (Publish pb) = true) by (rewrite <- Hx; apply is_connect_create). discriminate.
+  Qed.
+
   (* ---- net_write_completion ---- *)
   Lemma net_write_completion_spec (s : state) :
     WF cfg s ->
     let r := net_write_completion cfg s in
-    (forall site, r_out r <> Panic site) /\ WFS (r_s r) /\ (r_out r = Ok tt -> WFP cfg (r_s r)) /\ comp_of (r_s r) = comp_of s.
+    (forall site, r_out r <> Panic site) /\ WFS (r_s r) /\ (r_out r = Ok tt -> WFP cfg (r_s r)) /\ comp_of (r_s r) = comp_of s /\
+    (TR s -> TR (r_s r)).
   Proof.
     intros [HW HP]. unfold net_write_completion.
     destruct (pstate_eqb (s_st s) Halted || pstate_eqb (s_st s) Disconnected) eqn:Est.
@@ -240,7 +283,13 @@ Section Events.
     { intros i o Hi Ho. pose proof (w_pwco _ _ HW i o Hi Ho) as Hn. rewrite needs_pid_split in Hn.
       destruct (pubq (op_packet o)), (nonk (op_packet o)); cbn in Hn; congruence. }
     pose proof (succeed_all_spec cfg [] (s_pwco s) s1 HW1 H91 Hk) as F.
-    split; [apply F|]. split; [apply F|]. split; [|rewrite (rest_comp _ _ (fc_rest _ _ _ (ss_frame _ _ _ _ _ F))); reflexivity]. intros _.
+    assert (HTR : TR s -> TR (r_s (succeed_all cfg s1 (s_pwco s)))).
+    { intros T. apply (TR_gen s _ T). intros i o1 Hi Hp. right. exists o1.
+      pose proof (fc_sub _ _ _ (ss_frame _ _ _ _ _ F) _ _ Hi) as Hi1. split; [exact Hi1|]. splits; auto.
+      destruct (rest_fields _ _ (fc_rest _ _ _ (ss_frame _ _ _ _ _ F))) as (R1 & R2 & R3 & R4 & R5 & _).
+      unfold inQ. rewrite R1, R2, R3, R4, R5. cbn. intros [Q|[Q|[Q|[Q|Q]]]]; try tauto. exfalso.
+      rewrite (ss_gone _ _ _ _ _ F i Q) in Hi. discriminate. }
+    split; [apply F|]. split; [apply F|]. split; [|split; [rewrite (rest_comp _ _ (fc_rest _ _ _ (ss_frame _ _ _ _ _ F))); reflexivity|exact HTR]]. intros _.
     unfold WFP in HP. destruct (s_st s) eqn:E; try discriminate.
     - (* PendingConnack: the written CONNECT is completed *)
       destruct HP as (A1 & A2 & A3 & A4 & A5 & A6 & A7 & A8).
